@@ -1,10 +1,10 @@
 #!/bin/bash
-# usage: confirm_seed.sh <ID> <A|B> [patchfile]   — confirms a seeded change against /repo HEAD in a scratch copy:
+# usage: [SEEDROOT=/tmp/seed2 OUTPREFIX=r2-] confirm_seed.sh <ID> <A|B> [patchfile]   — confirms a seeded change against /repo HEAD in a scratch copy:
 #  patch applies & builds, pinned suite still passes, demo fails with the patch, demo passes without it.
 # Writes /verif/seeded/<ID>-<X>/{patch.diff,demo_test.go,meta.json}; prints one summary line.
 set -u
 V="$(cd "$(dirname "$0")/.." && pwd)"
-id="$1"; x="$2"; src="/tmp/seed/$id/out/$x"; patch="${3:-$src/patch.diff}"
+id="$1"; x="$2"; src="${SEEDROOT:-/tmp/seed}/$id/out/$x"; patch="${3:-$src/patch.diff}"
 export GOFLAGS=-mod=mod GOPROXY=off GOSUMDB=off GOTOOLCHAIN=local
 scr=$(mktemp -d /tmp/cseed.XXXXXX); trap 'rm -rf "$scr"' EXIT
 git -C /repo archive HEAD | tar -x -C "$scr"
@@ -26,7 +26,7 @@ status="REJECTED"
 if [ $clean -eq 0 ] && [ $patched -ne 0 ] && [ $base -eq 0 ]; then status="CONFIRMED"; fi
 echo "$id-$x: $status (demo clean exit=$clean, demo patched exit=$patched, suite exit=$base: $(tail -1 "$scr/base.log" | head -c 80))"
 if [ "$status" = CONFIRMED ]; then
-  out="$V/seeded/$id-$x"; mkdir -p "$out"
+  out="$V/seeded/${OUTPREFIX:-}$id-$x"; mkdir -p "$out"
   (cd "$scr" && git -C /repo diff --no-index --quiet /dev/null /dev/null; true)
   cp "$patch" "$out/patch.diff"; cp "$src/demo_test.go" "$out/demo_test.go"
   python3 - "$src/meta.json" "$out/meta.json" "$id" "$x" "$demo_cmd" "$demo_dir" <<'PY'
